@@ -741,6 +741,9 @@ class unyt_array(np.ndarray):
                 )
 
             values = self.d
+            if not values.flags.writeable:
+                # refuse before relabelling: the numbers cannot follow
+                raise ValueError("output array is read-only")
             # if our dtype is an integer do the following somewhat awkward
             # dance to change the dtype in-place. We can't use astype
             # directly because that will create a copy and not update self
